@@ -53,8 +53,11 @@ namespace {
 static const bool kServfailPerServer = true;
 
 enum { CFG, REQUEST, CANCEL, REPLY, DUP, ADVANCE, NOPS };
-enum { K_VALID, K_NXDOMAIN, K_SERVFAIL, K_FORMERR, K_REFUSED, K_NOTREPLY, K_UNKNOWNID, NKINDS };
-const char *const kKindName[] = {"valid", "NXDOMAIN", "SERVFAIL", "FORMERR", "REFUSED/NOTIMP", "QR-clear", "unknown-id"};
+enum { K_VALID, K_NXDOMAIN, K_SERVFAIL, K_FORMERR, K_REFUSED, K_NOTREPLY, K_UNKNOWNID, K_OVERSIZED, NKINDS };
+const char *const kKindName[] = {"valid", "NXDOMAIN", "SERVFAIL", "FORMERR", "REFUSED/NOTIMP", "QR-clear", "unknown-id", "oversized"};
+// UdpSocket hands DnsRequest at most this many bytes of a datagram (RECV_BUFF_SIZE in udp_socket.cpp; plain recvfrom() cuts the rest off)
+const size_t kRecvBuf = 4096;
+const size_t kOverSizes[] = {4096, 4097, 4098, 4100, 4112, 4200, 5000, 6000, 8192, 9000, 4095, 4090};
 const char *const kDomains[] = {"www.example.com", "a.b", "localhost", "mail.example.org", "x.y.z.example.net"};
 const int kNDomains = 5, kMaxLookups = 24, kMaxDatagrams = 60;
 typedef DnsRequest::Result::Status S;
@@ -72,10 +75,12 @@ struct Lookup {
   std::set<int> failed_servers; int failure_datagrams = 0;
   std::set<int> replied_servers;
   bool timed_out = false;
+  bool cut_ignored = false;    // a reply cut off by the receive buffer was (rightly) ignored for this lookup
 };
 struct Datagram {
   int server = 0, lookup = -1, kind = 0; Bytes bytes; uint16_t id = 0;
   // expectation computed when it is delivered
+  bool exp_optional = false;   // the datagram may complete the lookup (then exactly as predicted) or be ignored
   bool exp_complete = false; S exp_status = S::kSuccess; std::vector<RepA> exp_a; std::vector<RepC> exp_c;
   bool observed = false;
 };
@@ -98,7 +103,7 @@ struct World {
   // statistics
   bool st_timeout = false, st_cancel = false, st_cancel_stale = false, st_dup = false, st_multi = false, st_stale = false, st_unknown = false, st_notreply = false,
        st_allfail = false, st_partfail = false, st_nested = false, st_success = false, st_domainerr = false, st_fail = false, st_queued_while_idle = false, st_dupfail = false,
-       st_cancel_in_cb = false;
+       st_cancel_in_cb = false, st_over = false, st_over_cut = false, st_over_whole = false, st_over_then_done = false;
   int unconfirmed = 0;
 
   World() : clk(1000000) {}
@@ -157,11 +162,14 @@ struct World {
     if (cur) {
       Datagram &d = *cur;
       std::string what = std::string(kKindName[d.kind]) + " datagram from server " + std::to_string(d.server) + " carrying id " + std::to_string(d.id);
+      if (d.exp_optional && d.lookup == j) d.exp_complete = true;
       if (!d.exp_complete || d.lookup != j) {
         fail(nameOf(j) + " completed (" + got + ") during the delivery of a " + what + ", which must not complete it" +
+             (d.bytes.size() > kRecvBuf ? " (the datagram has " + std::to_string(d.bytes.size()) + " bytes; the " + std::to_string(kRecvBuf) + " bytes the socket's receive buffer holds end inside a record, i.e. what was received is a cut-off reply)" : std::string()) +
              (d.kind == K_SERVFAIL || d.kind == K_REFUSED ? " (server-failure replies so far from " + std::to_string(L.failed_servers.size()) + " of " + std::to_string(nsrv) + " servers)" : ""));
       } else {
         d.observed = true;
+        if (L.cut_ignored && d.kind == K_VALID) st_over_then_done = true;
         if (r.status != d.exp_status) fail(nameOf(j) + " completed with " + got + " by a " + what + ", expected " + statusName(d.exp_status));
         else if (d.exp_status == S::kSuccess) {
           bool same = r.a_vec.size() == d.exp_a.size() && r.cname_vec.size() == d.exp_c.size();
@@ -221,7 +229,36 @@ struct World {
   }
 
   // ------------------------------------------------------------------------------------------------ reply side
+  // Datagrams around and beyond the receive buffer of UdpSocket, with DNS content that extends past byte 4096.
+  //   shape 0: one TXT answer whose RDATA ends exactly at byte S          shape 1: two A answers, then that TXT record
+  //   shape 2: a TXT answer up to byte 4090, then A answers (the first one straddles byte 4096) up to ~S
+  //   shape 3: a complete two-address reply followed by padding up to S   shape 4: A answers only, up to S
+  // S from kOverSizes (4090, 4095 and 4096 are the controls that still fit).
+  Bytes buildOversized(uint16_t id, int variant, int server, int domain) {
+    const int shape = variant % 5; const size_t S = kOverSizes[(variant / 5) % 12];
+    Wire w; unsigned an = 0;
+    w.header(id, 0x8180, 1, 0, 0, 0);
+    w.name(kDomains[domain]); w.u16(T_A); w.u16(C_IN);
+    auto addA = [&](unsigned i) { w.ptr(12); w.rrFixed(T_A, C_IN, 60 + (i & 0xff), 4); w.u8(10); w.u8(1 + (unsigned)server); w.u8(200 + (unsigned)shape); w.u8(1 + i % 250); ++an; };
+    auto addTxtTo = [&](size_t end) {
+      if (end < w.b.size() + 13) end = w.b.size() + 13;
+      w.ptr(12); w.rrFixed(T_TXT, C_IN, 60, (unsigned)(end - (w.b.size() + 10)));
+      while (w.b.size() < end) { size_t n = std::min<size_t>(end - w.b.size() - 1, 255); w.u8((unsigned)n); for (size_t i = 0; i < n; ++i) w.u8('x'); }
+      ++an;
+    };
+    switch (shape) {
+      case 0: addTxtTo(S); break;
+      case 1: addA(0); addA(1); addTxtTo(S); break;
+      case 2: addTxtTo(4090); for (unsigned i = 0; w.b.size() + 16 <= std::max<size_t>(S, 4122); ++i) addA(i); break;
+      case 3: addA(0); addA(1); while (w.b.size() < S) w.u8('p'); break;
+      default: for (unsigned i = 0; w.b.size() + 16 <= S; ++i) addA(i); break;
+    }
+    w.put16(6, an);
+    return w.b;
+  }
+
   Bytes buildReply(uint16_t id, int kind, int variant, int server, int domain) {
+    if (kind == K_OVERSIZED) return buildOversized(id, variant, server, domain);
     Wire w;
     const std::string qn = kDomains[domain];
     unsigned rcode = kind == K_NXDOMAIN ? 3 : kind == K_SERVFAIL ? 2 : kind == K_FORMERR ? 1 : kind == K_REFUSED ? ((variant & 1) ? 5 : 4) : 0;
@@ -251,7 +288,10 @@ struct World {
 
   void predict(Datagram &d) {
     d.exp_complete = false;
-    RefMsg m = refParse(d.bytes.data(), d.bytes.size());
+    d.exp_optional = false;
+    const size_t seen = std::min(d.bytes.size(), kRecvBuf);       // what UdpSocket's receive buffer holds of it
+    RefMsg m = refParse(d.bytes.data(), seen);
+    if (d.bytes.size() > kRecvBuf) st_over = true;
     int j = -1;
     for (size_t k = 0; k < lk.size(); ++k) if (lk[k].id == m.id) j = (int)k;
     d.lookup = j;
@@ -262,7 +302,11 @@ struct World {
     L.replied_servers.insert(d.server);
     if (L.replied_servers.size() >= 2) st_multi = true;
     int rc = m.rcode();
-    if (rc == 0) { d.exp_complete = true; d.exp_status = S::kSuccess; d.exp_a.clear(); d.exp_c.clear(); refAnswers(m, d.exp_a, d.exp_c); st_success = true; }
+    if (rc == 0 && !m.complete) {          // cut off inside a question / record (only oversized datagrams): a malformed reply, ignored
+      st_over_cut = true; L.cut_ignored = true;
+    } else if (rc == 0 && m.end != seen) { // a complete reply followed by other bytes: may be taken or dropped, but only with its own data
+      d.exp_optional = true; d.exp_status = S::kSuccess; d.exp_a.clear(); d.exp_c.clear(); refAnswers(m, d.exp_a, d.exp_c); st_over_whole = true;
+    } else if (rc == 0) { d.exp_complete = true; d.exp_status = S::kSuccess; d.exp_a.clear(); d.exp_c.clear(); refAnswers(m, d.exp_a, d.exp_c); st_success = true; }
     else if (rc == 3) { d.exp_complete = true; d.exp_status = S::kDomainError; st_domainerr = true; }
     else if (rc == 1) { d.exp_complete = true; d.exp_status = S::kFail; st_fail = true; }
     else {
@@ -278,7 +322,7 @@ struct World {
     sent.push_back(std::move(d));
     Datagram &D = sent.back();
     bool enabled = anyOutstanding();           // DnsRequest reads its socket only while a lookup is outstanding
-    if (enabled) predict(D); else { st_queued_while_idle = true; D.exp_complete = false; RefMsg m = refParse(D.bytes.data(), D.bytes.size()); D.lookup = -1; for (size_t k = 0; k < lk.size(); ++k) if (lk[k].id == m.id) D.lookup = (int)k; }
+    if (enabled) predict(D); else { st_queued_while_idle = true; D.exp_complete = false; D.exp_optional = false; RefMsg m = refParse(D.bytes.data(), std::min(D.bytes.size(), kRecvBuf)); D.lookup = -1; for (size_t k = 0; k < lk.size(); ++k) if (lk[k].id == m.id) D.lookup = (int)k; }
     int before = cfd >= 0 ? rmemOf(cfd) : -1;
     ssize_t n = ::sendto(sfd[D.server], D.bytes.data(), D.bytes.size(), 0, (sockaddr *)&client, sizeof client);
     if (n != (ssize_t)D.bytes.size()) { fail(std::string("harness environment: sendto failed: ") + strerror(errno)); return; }
@@ -355,7 +399,7 @@ std::string run(const Scenario &s, CaseInfo &info) {
         if (W.lk.empty()) break;
         Datagram d; d.server = (int)op.in(0, 0, W.nsrv - 1); d.kind = (int)op.in(2, 0, NKINDS - 1);
         size_t j = W.lk.size() - 1 - (size_t)op.in(1, 0, (int64_t)W.lk.size() - 1);
-        int variant = (int)op.in(3, 0, 47);
+        int variant = (int)op.in(3, 0, 59);
         uint16_t id = W.lk[j].id;
         if (d.kind == K_UNKNOWNID) { static const uint16_t odd[] = {0, 0xffff, 0xaaaa}; id = variant % 4 == 3 ? (uint16_t)(W.lk.size() + 1000) : odd[variant % 4]; }
         d.id = id;
@@ -387,6 +431,8 @@ std::string run(const Scenario &s, CaseInfo &info) {
   info.cls_if(W.st_partfail, "some_servers_failed"); info.cls_if(W.st_dupfail, "duplicate_failure_from_one_server");
   info.cls_if(W.st_success, "success"); info.cls_if(W.st_domainerr, "nxdomain"); info.cls_if(W.st_fail, "formerr");
   info.cls_if(W.st_queued_while_idle, "datagram_while_idle");
+  info.cls_if(W.st_over, "oversized_datagram"); info.cls_if(W.st_over_cut, "oversized_cut_in_record_ignored"); info.cls_if(W.st_over_whole, "complete_reply_plus_trailing_bytes");
+  info.cls_if(W.st_over_then_done, "valid_reply_completes_after_cut_off_one");
   if (W.unconfirmed) stats().counters["arrival_unconfirmed"] += (uint64_t)W.unconfirmed;
   if (W.cfd < 0 && W.have_client) stats().counters["client_fd_not_found"]++;
   info.nontrivial = W.st_multi && (W.st_cancel || W.st_timeout);
@@ -403,12 +449,12 @@ SubDef def = [] {
   d.gen = [] {
     auto recent = rc::gen::weightedOneOf<int64_t>({{6, rc::gen::just<int64_t>(0)}, {2, rc::gen::just<int64_t>(1)}, {1, range(2, 8)}});
     auto kind = rc::gen::weightedOneOf<int64_t>({{4, rc::gen::just<int64_t>(K_VALID)}, {2, rc::gen::just<int64_t>(K_NXDOMAIN)}, {8, rc::gen::just<int64_t>(K_SERVFAIL)}, {1, rc::gen::just<int64_t>(K_FORMERR)},
-                                                  {4, rc::gen::just<int64_t>(K_REFUSED)}, {2, rc::gen::just<int64_t>(K_NOTREPLY)}, {2, rc::gen::just<int64_t>(K_UNKNOWNID)}});
+                                                  {4, rc::gen::just<int64_t>(K_REFUSED)}, {2, rc::gen::just<int64_t>(K_NOTREPLY)}, {2, rc::gen::just<int64_t>(K_UNKNOWNID)}, {4, rc::gen::just<int64_t>(K_OVERSIZED)}});
     auto adv = rc::gen::weightedOneOf<int64_t>({{3, range(0, 1000)}, {2, range(900, 1100)}, {2, range(3000, 4200)}, {1, range(4900, 5100)}, {1, range(0, 6000)}});
     auto opg = rc::gen::weightedOneOf<Op>({
       {6, mkop(REQUEST, {range(0, kNDomains - 1), rc::gen::weightedOneOf<int64_t>({{5, rc::gen::just<int64_t>(0)}, {1, rc::gen::just<int64_t>(1)}, {1, rc::gen::just<int64_t>(2)}})})},
       {2, mkop(CANCEL, {recent, range(0, 3)})},
-      {12, mkop(REPLY, {range(0, 2), recent, kind, range(0, 47)})},
+      {12, mkop(REPLY, {range(0, 2), recent, kind, range(0, 59)})},
       {3, mkop(DUP, {rc::gen::weightedOneOf<int64_t>({{4, rc::gen::just<int64_t>(0)}, {1, range(1, 5)}})})},
       {4, mkop(ADVANCE, {adv})},
     });
